@@ -1591,7 +1591,7 @@ def correspond(ctx, res):
     impl = Impl(ctx)
     try:
         res.rule = ("histories of kernel events and pids/pid_exists/process_iter/next/close/cache_clear/"
-                    "is_running ops from 12 clause-directed families (PRNG from VERIF_SEED), the lead witnesses, "
+                    "is_running ops from 15 clause-directed families (PRNG from VERIF_SEED; process_iter called in every spelling of its signature), the lead witnesses, "
                     "an exhaustive sweep of short macro-step words around one recycled PID, the complete "
                     "pid_exists table (every kind of id × every boundary argument) and byte-level directory "
                     "listings; non-trivial = an object is yielded again / a PID gets a new object / generators "
